@@ -19,11 +19,16 @@ type sessCfg struct {
 	Yield     int           `json:"yield"`
 	Heartbeat time.Duration `json:"heartbeat_ns"`
 	Propagate bool          `json:"close_propagates"`
+	CloseFail bool          `json:"carrier_close_returns_error"`
 	Procs     int           `json:"gomaxprocs"`
 }
 
 func (c sessCfg) String() string {
-	return fmt.Sprintf("win=%d wbc=%d backlog=%d chunk=%d cap=%d yield=%d hb=%s procs=%d", c.Window, c.WBC, c.Backlog, c.Chunk, c.PipeCap, c.Yield, c.Heartbeat, c.Procs)
+	s := fmt.Sprintf("win=%d wbc=%d backlog=%d chunk=%d cap=%d yield=%d hb=%s procs=%d", c.Window, c.WBC, c.Backlog, c.Chunk, c.PipeCap, c.Yield, c.Heartbeat, c.Procs)
+	if c.CloseFail {
+		s += " carrier-close-fails"
+	}
+	return s
 }
 
 var (
@@ -68,6 +73,7 @@ type session struct {
 func newSession(cfg sessCfg, seed int64) *session {
 	s := &session{cfg: cfg, mon: newWireMon()}
 	s.car[0], s.car[1] = newCarrierPair(s.mon, cfg.PipeCap, cfg.Chunk, cfg.Yield, cfg.Propagate, seed)
+	s.car[0].closeFail, s.car[1].closeFail = cfg.CloseFail, cfg.CloseFail
 	for side := 0; side < 2; side++ {
 		mc := &multiplexing.Configuration{
 			StreamReceiveWindow:       cfg.Window,
